@@ -1,8 +1,111 @@
-/- line-protocol handlers for the C01 models (stub: nothing modelled yet) -/
-import FontVerif.Model.Base
-namespace FontVerif.Drv.C01
-open FontVerif
+/- line-protocol handlers for the C01 generated-reader model (Model/Shape.lean) evaluated on the
+shapes that translate/shapes.py extracted from read-fonts/generated/*.rs (Gen/ReadShapes.lean).
 
-def handle (_cmd : String) (_args : List String) : Option String := none
+  shape <name> <hex> <arg>…      → `err:<Kind>` | `ok <range>…` one `a..b` / `none` / `panic` per field
+                                    (what `T::read[_with_args]` returns and what every
+                                    `shape.<f>_byte_range()` evaluates to)
+  getters <name> <hex> <arg>…    → `err` | `ok all` | `ok except <i>…`: the generated getters whose
+                                    unwrapped `Option`/`Result` is not `Some`/`Ok` (`getterOk`, decided)
+  recread <record> <n> <arg>…    → `1` / `0`: `R::read_with_args(n bytes, args).is_ok()`
+  recsize <record> <arg>…        → `<n>` / `err:…`: `<R as ComputeSize>::compute_size(&args)`
+  extcheck                       → `ok` iff every hand-written callee named by a shape is transcribed
+  shapes                         → number of translated shapes
+-/
+import FontVerif.Model.ShapeExt
+import FontVerif.Gen.ReadShapes
+namespace FontVerif.Drv.C01
+open FontVerif FontVerif.Shape
+
+def tables : Tables :=
+  ⟨Gen.ReadShapes.sizeNames, Gen.ReadShapes.customNames, Gen.ReadShapes.recSizes⟩
+
+def ext : Ext := concreteExt tables
+
+def mkData (bytes : List Nat) : Data :=
+  let arr := bytes.toArray
+  ⟨arr.size, fun i => arr.getD i 0⟩
+
+def errStr : RErr → String
+  | .oob => "err:OutOfBounds"
+  | .invalidArrayLen => "err:InvalidArrayLen"
+  | .other n => s!"err:Other{n}"
+  | .stuck => "err:STUCK"
+
+def rrStr : RR → String
+  | .panic => "panic"
+  | .absent => "none"
+  | .range a b => s!"{a}..{b}"
+
+def findShape (name : String) : Option Shape := Gen.ReadShapes.allShapes.lookup name
+
+/-- decide `getterOk` for the concrete `Ext` (same case analysis as the `Prop`) -/
+def getterOkB (s : Shape) (d : Data) (m : Marker) (g : Getter) : Bool :=
+  match rangeById m [] s.fields g.field with
+  | none => false
+  | some .panic => false
+  | some .absent => true
+  | some (.range a b) =>
+    match g.kind with
+    | .readAt sz => (readAt d a sz).isSome
+    | .readArray elem => decide (a ≤ b) && decide (b ≤ d.len) && decide (elem ≠ 0) && decide ((b - a) % elem = 0)
+    | .readArgsArray r args =>
+      decide (a ≤ b) && decide (b ≤ d.len) &&
+        (match gargVals s d m args with
+         | some vs => (match ext.size r vs with | .ok _ => true | .error _ => false)
+         | none => false)
+    | .readArgsStruct r args =>
+      decide (a ≤ b) && decide (b ≤ d.len) &&
+        (match gargVals s d m args with
+         | some vs => ext.recRead r vs (b - a)
+         | none => false)
+    | .varLen => decide (a ≤ d.len)
+    | .rangeOnly => true
+
+def handle (cmd : String) (args : List String) : Option String :=
+  match cmd, args with
+  | "shapes", [] => some (toString Gen.ReadShapes.allShapes.length)
+  | "extcheck", [] =>
+    match unmodelled tables with
+    | [] => some "ok"
+    | l => some ("UNMODELLED " ++ " ".intercalate l)
+  | "shape", name :: hex :: rest =>
+    match findShape name, parseHex? hex, parseNats? rest with
+    | some s, some bytes, some argVals =>
+      if argVals.length ≠ s.args.length then none else
+      let d := mkData bytes
+      match run ext s d argVals with
+      | .error e => some (errStr e)
+      | .ok m =>
+        let rs := s.fields.map (fun f => match rangeById m [] s.fields f.id with
+                                         | some r => rrStr r
+                                         | none => "missing")
+        some ("ok " ++ " ".intercalate rs)
+    | _, _, _ => none
+  | "getters", name :: hex :: rest =>
+    match findShape name, parseHex? hex, parseNats? rest with
+    | some s, some bytes, some argVals =>
+      if argVals.length ≠ s.args.length then none else
+      let d := mkData bytes
+      match run ext s d argVals with
+      | .error _ => some "err"
+      | .ok m =>
+        let bad := (s.getters.zipIdx.filter (fun (g, _) => !(getterOkB s d m g))).map (fun (_, i) => toString i)
+        some (if bad.isEmpty then "ok all" else "ok except " ++ " ".intercalate bad)
+    | _, _, _ => none
+  | "recread", name :: n :: rest =>
+    match parseNat? n, parseNats? rest with
+    | some n, some vs =>
+      match tables.sizeNames.idxOf? name with
+      | some r => some (if ext.recRead r vs n then "1" else "0")
+      | none => none
+    | _, _ => none
+  | "recsize", name :: rest =>
+    match parseNats? rest with
+    | some vs =>
+      match tables.sizeNames.idxOf? name with
+      | some r => some (match ext.size r vs with | .ok n => toString n | .error e => errStr e)
+      | none => none
+    | none => none
+  | _, _ => none
 
 end FontVerif.Drv.C01
